@@ -305,3 +305,7 @@ def _band_enumeration():
                             yield {"spec": spec, "path": path,
                                    "frames": [{"kind": kind, "payload": (b"b" * n).hex()}, {"kind": "ok", "payload": b"b".hex()}],
                                    "cuts": [c1, c2, 100], "hint": 4}
+
+
+def after_batch() -> None:
+    _aux.clear()
